@@ -300,6 +300,7 @@ static int h_call (int fn, const char *s, const char *e)
     case '4': return is_ipv4 (s, e);
     case '6': return is_ipv6 (s, e);
     case 'P': return is_ipaddr (s, e);
+    case 'S': return is_special_domain (s, e);
     default:  return is_ascii_domain (s, e);
     }
 }
